@@ -23,9 +23,16 @@ RULE = ("one evaluation = one sub-monitor verdict on one (unit system, unit, cal
         "deep-copied / unpickled registry; code systems defined again under the registry's id) the same verdicts against the NEW "
         "definition, plus: the name reaches the new object, copying does not touch the registry, and each form (in_base, second "
         "in_base, get_base_equivalent, convert_to_base) answers what it answers for the same definition under a never-used name "
-        "replayed in the same order. "
+        "replayed in the same order; in a history of one editable REGISTRY (system on code units bound to it - user-named, mixed with "
+        "ordinary units, on a prefixed code unit, or named by the registry's id; convert; modify / modify with a quantity / remove+add a symbol "
+        "the system uses, a declared one, an unused one, several; convert freshly created quantities again) the same verdicts against the "
+        "table the harness itself last wrote, plus: the result's Unit object is worth what the table says now, S[dimension] likewise, the form "
+        "called first after an edit answers what the same form answers later, the no-argument forms follow the registry's unit_system, every "
+        "form answers what it answers over a never-edited registry of the same contents, and a quantity created before the edit is untouched "
+        "by it and converts to the same physical quantity by its own Unit object. "
         "distinct = (sub-monitor, system, unit) for table units and (sub-monitor, system class, unit family, shape of the compound) "
-        "for generated units; (sub-monitor, system class, kind of re-definition, how the system was handed over, unit family) in histories")
+        "for generated units; (sub-monitor, system class, kind of re-definition, how the system was handed over, unit family) in histories; "
+        "(sub-monitor, system class, kind of registry-bound system, before/after the edit, how handed over, unit family) in registry-edit histories")
 ASSUMPTIONS = (
     "atomic scales are read as data from the registry table by symbol (their correctness is C02's subject); compound scales, "
     "dimensions, prefixes and affine maps are computed by vf/ref (uexpr, defs, dims), never by unyt",
@@ -61,6 +68,17 @@ ASSUMPTIONS = (
     "a system object handed to a conversion stands for the registered system of its name (the library looks objects up by name): "
     "deep copies and pickle round trips of the CURRENT definition are judged against it; objects, copies and registries that stem "
     "from a superseded definition are no longer 'registered unit systems' - which definition they follow is recorded, not judged",
+    "a unit system bound to an editable registry (registry=...) means, at every moment, the units its symbols have in that registry's "
+    "CURRENT table: after registry.modify / remove+add of a symbol, freshly created quantities of that registry are judged against the "
+    "values the harness itself last wrote (own table, never the registry's lut or a Unit object's base_value); keys of clean unit "
+    "families after an edit carry '+registry-edit', electromagnetic families keep their ordinary keys (known defects stay one key)",
+    "a quantity created BEFORE an edit keeps the meaning it had (its Unit object carries the old scale): the edit must not touch it, and "
+    "its conversion is judged by its own Unit objects only (result numbers x result unit scale = old numbers x old scale, inside the "
+    "system, the three forms agree in spelling and as physical quantities); whether the result's Unit object carries the old or the new "
+    "scale is not judged (the first request of a dimension builds the unit afresh, later ones hand the quantity's own unit back)",
+    "edits that change the dimension of a symbol, and edits of a registry whose system has gone out of reach ('code' after the id "
+    "changed and before a system is registered under the new id: KeyError) are outside the property; after an edit a code system is "
+    "reached by its object / its old name, or is registered again under the new id (both live systems are judged)",
 )
 MIN_EVALS = 20000
 TIMEOUT = 1500
@@ -361,7 +379,7 @@ def landing(S, ctx, rexpr, d, scale=None):
 
 
 def judge(ctx, S, sysarg, ustr, vals, dt="f8", scalar=False, cellkey=None, aliases=True, light=False, scls=None, keytag="", trace=None,
-          case_extra=None):
+          case_extra=None, scale_mon=False):
     """run every entry point for (S, unit) and judge.  Returns the in_base result unit string or the exception name.
     trace: dict that receives what each form answered (for differential monitors of the caller)"""
     unyt, rec = ctx.unyt, ctx.rec
@@ -444,6 +462,14 @@ def judge(ctx, S, sysarg, ustr, vals, dt="f8", scalar=False, cellkey=None, alias
             else:
                 inside = True
                 rec.ok(("inside",) + tuple(cell))
+            # -- the result's Unit object is worth what the registry's table says its symbols are worth now
+            if scale_mon:
+                rec.count("mon:result-scale")
+                if close(r.units.base_value, B.scale, 1e-12):
+                    rec.ok(("result-scale",) + tuple(cell))
+                else:
+                    rec.violation(f"C10:in_base:result-unit-scale-differs-from-registry:{fam}:{scls}",
+                                  f"({ustr}).in_base({S.name!r}) -> {rexpr} whose Unit object is worth {r.units.base_value!r} (mks); the registry's current table makes it {B.scale!r}", case)
             # -- value
             if B.dim == A.dim or counterpart:
                 with np.errstate(all="ignore"):
@@ -849,6 +875,10 @@ def batches(tier, seed):
     for k, sd in enumerate(seeds):
         for i in range(nre):
             b.append((f"redef/{k}/{i}", ("redef", (sd, f"{k}_{i}", perre, tier))))
+    nedit = 18 if tier == "quick" else 96
+    for k, sd in enumerate(seeds):
+        for i in range(nedit):
+            b.append((f"regedit/{k}/{i}", ("regedit", (sd, k, i, tier))))
     return b
 
 
@@ -922,6 +952,9 @@ def worker(batch, rec):
     elif kind == "redef":
         seed, i, n, tier = payload
         redef_cases(unyt, rec, core.rng(seed, "redef", i), i, n, tier)
+    elif kind == "regedit":
+        seed, k, i, tier = payload
+        regedit_cases(unyt, rec, core.rng(seed, "regedit", k, i), i, tier)
 
 
 # ------------------------------------------------------------------ user systems
@@ -1449,6 +1482,369 @@ def code_cases(unyt, rec, r, idx, tier):
     rec.sample({"code_registry": {"L": L, "M": M, "T": T, "current": cur}})
 
 
+# ------------------------------------------------------------------ registry edits between conversions (systems bound to an editable registry)
+class RegModel:
+    """what the harness itself wrote into the registry, and when: symbol -> [mks value, dimension vector, prefixable, dimension name].
+    The reference reads the edited symbols from here, never from the registry's table or from a Unit object"""
+
+    def __init__(self):
+        self.tab = {}
+
+    def split(self, tok):
+        if tok in self.tab:
+            return (1.0, tok)
+        for p, f in defs.PREFIX.items():
+            s = tok[len(p):]
+            if tok.startswith(p) and s in self.tab and self.tab[s][2]:
+                return (f, s)
+        return None
+
+
+def regedit_ctx(unyt, rec, reg, model):
+    ctx = Ctx(unyt, rec, reg)
+    base_res, base_canon = ctx.res, ctx.canon
+
+    def res(tok):
+        c = model.split(tok)
+        if c is not None:
+            return (model.tab[c[1]][0] * c[0], model.tab[c[1]][1])
+        return base_res(tok)
+
+    def canon(tok):
+        c = model.split(tok)
+        return c if c is not None else base_canon(tok)
+    ctx.res, ctx.canon = res, canon
+    ctx.base_res = base_res
+    return ctx
+
+
+REGEDIT_KINDS = ("user-code", "user-code", "user-mixed", "code-id", "code-id", "user-prefixed")
+REGEDIT_ORD = ["m", "km", "g", "Msun", "Myr", "s", "K", "J", "erg", "g/cm**3", "km/s", "N/m**2", "dyn/cm**2", "1/s", "Hz", "K*m", "W", "kg*m/s",
+               "pc**3", "rad/s", "cd/m**2", "sqrt(g)*cm**(3/2)/s", "erg/K", "Msun/yr", "km**2", "m/s**2", "Pa*s", "J/kg"]
+REGEDIT_EDITS = ("modify", "modify", "modify", "modify-quantity", "re-add", "modify-declared", "modify-unused", "modify-several", "declare-late-then-modify")
+REGEDIT_Q = {"length": ["km", "pc", "cm", "AU"], "mass": ["g", "Msun", "lb"], "time": ["yr", "ms", "Myr"], "temperature": ["K", "R"],
+             "velocity": ["km/s", "cm/s"], "pressure": ["Pa", "dyn/cm**2", "bar"], "density": ["g/cm**3", "kg/m**3"],
+             "magnetic_field_mks": ["T"], "magnetic_field_cgs": ["G"], "energy": ["erg", "J"]}
+
+
+def _sys_build(unyt, desc, reg, ctx, decl):
+    """construct + declare; the model's atoms are read with the history's own canon (prefixed code units)"""
+    Sobj, _m = construct(unyt, desc, reg)
+    S = SM.SysModel(desc["name"], [base_string(desc["base"][s], desc["forms"][s], desc["coeff"][s]) for s in SM.SLOTS], {}, ctx.canon,
+                    origin=desc.get("origin", "user"))
+    for (dn, u) in decl:
+        declare(unyt, Sobj, S, dn, u, "name")
+    return Sobj, S
+
+
+def regedit_cases(unyt, rec, r, idx, tier):
+    from unyt.unit_registry import UnitRegistry
+    from unyt.unit_systems import unit_system_registry
+    from unyt import dimensions as ud
+    kind = REGEDIT_KINDS[idx % len(REGEDIT_KINDS)]
+    cur = (idx // len(REGEDIT_KINDS)) % 2 == 1 if kind != "code-id" else r.random() < 0.5
+    reg = UnitRegistry()
+    model = RegModel()
+    ctx = regedit_ctx(unyt, rec, reg, model)
+    vals = np.array(VALS[:3])
+
+    def radd(sym, val, dn, prefixable=False):
+        reg.add(sym, val, getattr(ud, dn), prefixable=prefixable)
+        model.tab[sym] = [float(val), dims.of_expr(getattr(ud, dn)), prefixable, dn]
+
+    L = 10 ** r.uniform(-3, 22); M = 10 ** r.uniform(-6, 40); T = 10 ** r.uniform(-6, 15); K = r.choice([1.0, 2.5, 1e4])
+    lroot = "code_length"
+    if kind == "user-prefixed":
+        lroot = "clu"
+        radd("clu", L, "length", True)
+    else:
+        radd("code_length", L, "length")
+    radd("code_mass", M, "mass"); radd("code_time", T, "time"); radd("code_temperature", K, "temperature")
+    radd("code_velocity", L / T * r.choice([1.0, 3.0]), "velocity")
+    radd("code_pressure", M / L / T ** 2 * r.choice([1.0, 0.5]), "pressure")
+    radd("code_density", M / L ** 3, "density")
+    mdn = "magnetic_field_mks" if cur else "magnetic_field_cgs"
+    radd("code_magnetic", 10 ** r.uniform(-12, 2), mdn)
+    radd("code_spare", 10 ** r.uniform(-3, 3), "length")             # never used by the system
+    base = {"length": lroot, "mass": "code_mass", "time": "code_time", "temperature": r.choice(["code_temperature", "K"]), "angle": "rad",
+            "current_mks": "A" if cur else None, "luminous_intensity": "cd", "logarithmic": "Np"}
+    if kind == "user-prefixed":
+        base["length"] = r.choice(["kclu", "Mclu", "mclu"])
+    if kind == "user-mixed":
+        for sl, alt in r.sample([("length", "kpc"), ("mass", "Msun"), ("time", "Myr")], r.randint(1, 2)):
+            base[sl] = alt
+    forms = {s: r.choice(["str", "str", "unit", "quantity", "coeffstr"]) for s in SM.SLOTS}
+    if kind == "code-id":
+        forms = {s: "str" for s in SM.SLOTS}
+    forms["current_mks"] = "str" if cur else "none"
+    name = reg.unit_system_id if kind == "code-id" else r.choice(["vf_c10_sim", "sim", "Vf C10 run"]) + f"_{idx}"
+    desc = {"name": name, "origin": "code" if kind == "code-id" else "user", "base": base, "forms": forms,
+            "coeff": {s: r.choice([2.0, 0.5, 42.0]) for s in SM.SLOTS}, "over": [], "npos": r.choice([3, 3, 5, 0])}
+    dpool = [("velocity", "code_velocity"), ("pressure", "code_pressure"), ("density", "code_density"), (mdn, "code_magnetic"), ("energy", "erg")]
+    decl = r.sample(dpool, r.randint(0, 3))
+    rec.count("mon:regedit-construct")
+    try:
+        Sobj, S = _sys_build(unyt, desc, reg, ctx, decl)
+    except Exception as e:
+        rec.violation(f"C10:registry-edit:consistent-base-rejected:{type(e).__name__}", f"unit system {base} over a registry with code units raised {type(e).__name__}: {str(e)[:150]}", desc); return
+    scls = S.cls()
+    if r.random() < 0.4:
+        reg.unit_system = Sobj          # the registry's default system: the no-argument forms go through it
+    live = [(Sobj, S, desc)]
+
+    class DS:
+        pass
+    ds = DS(); ds.unit_registry = reg
+
+    def sys_args():
+        out = []
+        for (so, sm, sd) in live:
+            out += [("object", so, sm), ("name", sd["name"], sm)]
+            if sd["origin"] == "code" and unit_system_registry.get(reg.unit_system_id) is so:
+                out += [("'code'", "code", sm), ("dataset-like", ds, sm)]
+        return out
+
+    def code_probes():
+        have = [s for s in model.tab]
+        out = [lroot, "code_mass", "code_time", "code_velocity", "code_pressure", "code_density", f"{lroot}**2*code_mass/code_time**2",
+               f"code_mass/{lroot}**3", f"{lroot}/s", "km/code_time", f"{lroot}**(3/2)", "code_temperature*code_mass", base["length"], f"{base['length']}**2"]
+        out += [s for s in have if s not in out and s != "code_magnetic"]
+        return out
+
+    nround = r.choice([3, 4]) if tier == "quick" else r.choice([3, 4, 5, 6])
+    nprobe = 12 if tier == "quick" else 22
+    old = []                      # (round created, unit, quantity, scale when created, values)
+    history = []
+
+    def used_syms():
+        return sorted({model.split(t)[1] for sl, u in base.items() if u for t in SM.names_in(u) if model.split(t)})
+    for k in range(nround):
+        edited = []
+        if k:
+            # ---- the edit(s)
+            what = r.choice(REGEDIT_EDITS)
+            base_syms = used_syms()
+            decl_syms = [u for (dn, u) in decl if u in model.tab]
+            if what == "modify-declared" and not decl_syms:
+                what = "declare-late-then-modify"
+            if what == "declare-late-then-modify":
+                free = [(dn, u) for (dn, u) in dpool if dn not in {d for d, _u in decl} and u in model.tab]
+                if not free:
+                    what = "modify"
+                else:
+                    dn, u = r.choice(free)
+                    for (so, sm, sd) in live:
+                        declare(unyt, so, sm, dn, u, "name")
+                    decl.append((dn, u))
+                    # converted once with the declaration in place, then the declared symbol is edited
+                    for pu in REGEDIT_Q.get(dn, [])[:2]:
+                        _warm(unyt, ctx, live[-1][0], pu, vals, r.choice(["in_base", "convert_to_base", "get_base_equivalent"]))
+                    targets = [u]
+            if what in ("modify", "modify-quantity", "re-add"):
+                targets = [r.choice(base_syms)] if base_syms else [r.choice(decl_syms or ["code_spare"])]
+            elif what == "modify-declared":
+                targets = [r.choice(decl_syms)]
+            elif what == "modify-unused":
+                targets = ["code_spare"]
+            elif what == "modify-several":
+                pool_ = base_syms + decl_syms
+                targets = r.sample(pool_, min(len(pool_), r.randint(2, 4)))
+            for sym in targets:
+                ent = model.tab[sym]
+                newv = ent[0] * 10 ** r.uniform(-2.5, 2.5) if r.random() < 0.8 else ent[0] * r.choice([2.0, 0.5, 1000.0])
+                rec.count("mon:regedit-edit")
+                try:
+                    if what == "modify-quantity" and ent[3] in REGEDIT_Q:
+                        qu = r.choice(REGEDIT_Q[ent[3]])
+                        qs = uexpr.evaluate(qu, ctx.base_res)[0]
+                        reg.modify(sym, unyt.unyt_quantity(newv / qs, qu))
+                        newv = (newv / qs) * qs
+                    elif what == "re-add":
+                        reg.remove(sym)
+                        reg.add(sym, newv, getattr(ud, ent[3]), prefixable=ent[2])
+                    else:
+                        reg.modify(sym, newv)
+                except Exception as e:
+                    rec.violation(f"C10:registry-edit:edit-raises:{what}:{type(e).__name__}", f"registry.{what}({sym!r}, {newv!r}) raised {type(e).__name__}: {str(e)[:150]}", {"history": history, "symbol": sym})
+                    return
+                ent[0] = float(newv)
+                edited.append((what, sym, float(newv)))
+            history.append(edited)
+            # a code system is registered again under the registry's new id (the dataset's units became known); the old object stays
+            if kind == "code-id" and r.random() < 0.5:
+                d2 = dict(desc, name=reg.unit_system_id)
+                try:
+                    So2, S2 = _sys_build(unyt, d2, reg, ctx, decl)
+                    live.append((So2, S2, d2))
+                    rec.count("mon:regedit-code-reregistered")
+                except Exception as e:
+                    rec.violation(f"C10:registry-edit:consistent-base-rejected:after-edit:{type(e).__name__}", f"code system over the edited registry raised {type(e).__name__}: {str(e)[:150]}", {"history": history})
+        # ---- S[dimension] hands out the unit the registry's table describes NOW
+        args = sys_args()
+        for dn in r.sample(["length", "mass", "time", "velocity", "pressure", "density", "energy", "force", "area", "frequency", "temperature"], 4):
+            so, sm, _sd = live[r.randrange(len(live))]
+            rec.count("mon:regedit-getitem")
+            try:
+                u = so[dn]
+                B = Affine(expr_of(u), ctx.res)
+            except Exception as e:
+                rec.violation(f"C10:registry-edit:getitem:raises:{type(e).__name__}", f"system {base}[{dn!r}] after {history} raised {type(e).__name__}: {str(e)[:120]}", {"history": history}); continue
+            if B.dim != (SM.DIMNAME.get(dn) or SM.SLOT_DIM[dn]) or landing(sm, ctx, expr_of(u), B.dim):
+                rec.violation(f"C10:registry-edit:getitem:wrong-unit:{scls}", f"system {base}[{dn!r}] -> {u}", {"history": history})
+            elif not close(u.base_value, B.scale, 1e-12):
+                rec.violation(f"C10:registry-edit:getitem:stale-scale:{scls}:{'after-edit' if k else 'before-edit'}",
+                              f"system {base} (declared {decl}) [{dn!r}] -> {u} worth {u.base_value!r} (mks); the registry's table now says {B.scale!r} (edits {history})", {"history": history, "dimension": dn})
+            else:
+                rec.ok(("regedit-getitem", scls, kind, dn, "after-edit" if k else "before-edit"))
+        # ---- quantities created before the edit keep their value
+        for (k0, u, q, sc0, v0, base0) in old:
+            if k0 != k - 1:
+                continue
+            rec.count("mon:regedit-old-quantity")
+            how, arg, sm = args[r.randrange(len(args))]
+            case = {"history": history, "unit": u, "created_in_round": k0, "system_base": base}
+            if not np.array_equal(np.asarray(q.d), v0) or q.units.base_value != base0:
+                rec.violation(f"C10:registry-edit:old-quantity:changed-by-edit:{scls}", f"{v0.tolist()} {u} created before {edited}: now {q!r} with unit scale {q.units.base_value!r} (was {base0!r})", case); continue
+            try:
+                x = q.in_base(arg)
+                phys = np.asarray(x.d) * x.units.base_value
+                y = q.copy(); y.convert_to_base(arg)
+                g = q.units.get_base_equivalent(arg)
+            except unyt.exceptions.UnitsNotReducible:
+                rec.ok(("regedit-old-refusal", scls, kind)); continue
+            except Exception as e:
+                rec.violation(f"C10:registry-edit:old-quantity:raises:{type(e).__name__}:{scls}", f"({u} created before {edited}).in_base raised {type(e).__name__}: {str(e)[:120]}", case); continue
+            if landing(sm, ctx, expr_of(x.units), dims.of_expr(x.units.dimensions)):
+                rec.violation(f"C10:registry-edit:old-quantity:outside-system:{scls}", f"({u} created before {edited}).in_base -> {x!r}", case)
+            elif not close(phys, v0 * sc0, 1e-12):
+                rec.violation(f"C10:registry-edit:old-quantity:value:{scls}", f"{v0.tolist()} {u} created when its unit was worth {sc0!r} (mks), converted after {edited}: {x!r} whose unit is worth {x.units.base_value!r}: "
+                              f"{phys.tolist()} (mks) instead of {(v0 * sc0).tolist()}", case)
+            elif (expr_of(y.units) != expr_of(x.units) or not close(np.asarray(y.d) * y.units.base_value, phys, 1e-12) or expr_of(g) != expr_of(x.units)
+                  or not (close(g.base_value, x.units.base_value, 1e-14) or close(g.base_value, y.units.base_value, 1e-14))):
+                rec.violation(f"C10:registry-edit:old-quantity:forms-disagree:{scls}", f"{u} created before {edited}: in_base -> {x!r}, convert_to_base -> {y!r}, get_base_equivalent -> {g!r} ({g.base_value!r})", case)
+            else:
+                rec.ok(("regedit-old", scls, kind, how, "code-unit" if any(model.split(t) for t in SM.names_in(u)) else "ordinary"))
+        # ---- fresh quantities through every form; the first call after the edit is rotated over the forms
+        probes = r.sample(REGEDIT_ORD, nprobe // 2) + r.sample(code_probes(), nprobe // 2 - 1) + [gen_compound(r)] + (r.sample(["G", "T", "uG", "mT"], 1) if k % 2 else [])
+        if k:
+            # dimensions converted before the edit come first: their memos are the ones an edit can leave behind
+            prev = [p for p in history_probes if p not in probes]
+            probes = r.sample(prev, min(len(prev), nprobe // 2)) + probes
+        else:
+            history_probes = []
+        steplog = []
+        for j, u in enumerate(probes):
+            how, arg, sm = args[r.randrange(len(args))]
+            try:
+                du = uexpr.evaluate(u, ctx.res)[1]
+            except Exception:
+                rec.note("harness:reference-cannot-evaluate-input"); continue
+            fam = family(u, du)
+            clean = not (fam.startswith("em-") or fam in ("compound-current", "compound-gauss", "current-atom", "gauss-atom"))
+            codeu = any(model.split(t) for t in SM.names_in(u))
+            first_form = (None, "in_base", "convert_to_base", "get_base_equivalent")[(j + k) % 4]
+            first = None
+            if first_form is not None:
+                first = _plain_one(ctx, arg, u, vals, first_form)
+            tr = {}
+            out = judge(ctx, sm, arg, u, vals, cellkey=(scls, "regedit", kind, "after-edit" if k else "before-edit", how, "code-unit" if codeu else fam),
+                        aliases=False, scls=scls, keytag="+registry-edit" if (k and clean) else "", trace=tr, scale_mon=True,
+                        case_extra={"registry_edits": history, "registry_now": {s: e[0] for s, e in model.tab.items()}, "declared": decl, "system_given_as": how, "round": k})
+            if out is None:
+                continue
+            if k:
+                rec.count("mon:regedit-judged")
+            if u not in history_probes:
+                history_probes.append(u)
+            steplog.append((u, tr, arg is not None))
+            if first is not None and k:
+                key_form = {"in_base": "in_base", "convert_to_base": "inplace", "get_base_equivalent": "gbe"}[first_form]
+                if key_form in tr:
+                    rec.count("mon:regedit-first-call")
+                    (e1, v1), (e2, v2) = first, tr[key_form]
+                    what_ = None
+                    if e1 != e2 and not same_unit(ctx, e1, e2):
+                        what_ = "unit"
+                    elif v1 is not None and v2 is not None and not close(np.asarray(v1), np.asarray(v2), 1e-13):
+                        what_ = "value"
+                    if what_:
+                        rec.violation(f"C10:registry-edit:first-call-after-edit-differs-from-later-call:{first_form}:{what_}:{scls}",
+                                      f"after {edited}: the first {first_form} of ({u}) -> {v1} {e1}; the same call later -> {v2} {e2}", {"history": history, "unit": u})
+                    else:
+                        rec.ok(("regedit-first-call", first_form, scls, kind))
+            # the registry's default system: no-argument forms answer what the explicit form answers
+            if reg.unit_system is live[0][0] and arg in (live[0][0], live[0][2]["name"]) and j % 3 == 0:
+                rec.count("mon:regedit-default")
+                got = _plain_one(ctx, None, u, vals, "in_base")
+                (e1, v1), (e2, v2) = got, tr["in_base"]
+                if (e1 != e2 and not same_unit(ctx, e1, e2)) or (v1 is not None and v2 is not None and not close(np.asarray(v1), np.asarray(v2), 1e-13)):
+                    rec.violation(f"C10:registry-edit:default-system-differs:{scls}:{'after-edit' if k else 'before-edit'}", f"({u}).in_base() -> {v1} {e1}; in_base(<the registry's unit_system>) -> {v2} {e2} (edits {history})", {"history": history, "unit": u})
+                else:
+                    rec.ok(("regedit-default", scls, kind, "after-edit" if k else "before-edit"))
+        # ---- quantities of this round, looked at again after the next edit
+        for u in r.sample(probes, min(len(probes), 5)):
+            try:
+                sc0, du = uexpr.evaluate(u, ctx.res)
+                fam = family(u, du)
+                if fam.startswith("em-") or fam in ("compound-current", "compound-gauss", "current-atom", "gauss-atom", "offset", "log"):
+                    continue
+                if single_atom(u) is not None and defs.T[single_atom(u)[1]].offset:
+                    continue
+                q = make_q(ctx, u, np.array(vals, copy=True))
+                if close(q.units.base_value, sc0, 1e-12):
+                    old.append((k, u, q, sc0, np.array(vals, copy=True), q.units.base_value))
+            except Exception:
+                pass
+        # ---- differential: a never-edited registry holding the current contents, same definition under a never-used name
+        if k and (k == nround - 1 or r.random() < 0.4):
+            reg2 = UnitRegistry()
+            for s, e in model.tab.items():
+                reg2.add(s, e[0], getattr(ud, e[3]), prefixable=e[2])
+            ctx2 = regedit_ctx(unyt, rec, reg2, model)
+            tw = dict(desc, name=f"{desc['name']}_twin{k}", origin="user")
+            try:
+                Tobj, _TS = _sys_build(unyt, tw, reg2, ctx2, decl)
+            except Exception as e:
+                rec.note(f"harness:twin-not-constructible:{type(e).__name__}"); continue
+            for (u, tr, _x) in steplog:
+                got = _plain_forms(unyt, ctx2, tw["name"], u, vals)
+                for form in ("in_base", "twice", "gbe", "inplace"):
+                    if form not in tr or form not in got:
+                        continue
+                    rec.count("mon:regedit-twin")
+                    (e1, v1), (e2, v2) = tr[form], got[form]
+                    what_ = None
+                    if e1 != e2 and not same_unit(ctx, e1, e2):
+                        what_ = "unit"
+                    elif v1 is not None and v2 is not None and not close(np.asarray(v1), np.asarray(v2), 1e-13):
+                        what_ = "value"
+                    if what_:
+                        rec.violation(f"C10:registry-edit:differs-from-never-edited-registry:{form}:{what_}:{scls}",
+                                      f"system {base} declared {decl} after registry edits {history}: ({u}) {form} -> {v1} {e1}; a never-edited registry with the same contents -> {v2} {e2}",
+                                      {"history": history, "unit": u, "form": form, "registry_now": {s: e[0] for s, e in model.tab.items()}})
+                    else:
+                        rec.ok(("regedit-twin", form, scls, kind))
+        for (so, sm, _sd) in live:
+            audit_units_map(ctx, sm, so)
+    rec.sample({"registry_edit_history": {"kind": kind, "base": base, "forms": forms, "declared": decl, "edits": history}})
+
+
+def _plain_one(ctx, sysarg, ustr, vals, form):
+    """what one form answers, unjudged: (unit string or exception name, values or None); sysarg None = no argument"""
+    a = () if sysarg is None else (sysarg,)
+    try:
+        q = make_q(ctx, ustr, np.array(vals, copy=True))
+        if form == "in_base":
+            x = q.in_base(*a)
+            return (expr_of(x.units), np.asarray(x.d).tolist())
+        if form == "convert_to_base":
+            q.convert_to_base(*a)
+            return (expr_of(q.units), np.asarray(q.d).tolist())
+        return (expr_of(q.units.get_base_equivalent(*a)), None)
+    except Exception as e:
+        return (type(e).__name__, None)
+
+
 # ------------------------------------------------------------------ registry default system
 def default_cases(unyt, rec, r, tier):
     from unyt.unit_registry import UnitRegistry
@@ -1595,7 +1991,9 @@ DECIDING = ("mon:in_base-calls", "mon:dim", "mon:inside", "mon:value", "mon:back
             "mon:history", "mon:units_map", "mon:usable", "mon:user-construct", "mon:getitem", "mon:ctor-reject", "mon:ctor-accept",
             "mon:code-construct", "mon:default", "mon:lookup",
             "mon:redef-construct", "mon:redef-registered", "mon:redef-copy-keeps-registry", "mon:redef-judged", "mon:redef-copy", "mon:redef-em-after-warm",
-            "mon:redef-stale-object", "mon:redef-registry-default", "mon:redef-twin", "mon:code-redefine", "mon:code-redefine-judged")
+            "mon:redef-stale-object", "mon:redef-registry-default", "mon:redef-twin", "mon:code-redefine", "mon:code-redefine-judged",
+            "mon:regedit-construct", "mon:regedit-edit", "mon:regedit-getitem", "mon:regedit-old-quantity", "mon:regedit-judged", "mon:result-scale",
+            "mon:regedit-first-call", "mon:regedit-default", "mon:regedit-twin", "mon:regedit-code-reregistered")
 
 
 def extra(tier, seed, results):
